@@ -144,3 +144,9 @@ package types
 //@   props C16
 //@   ensures (bz == nil) == (ret == nil)
 //@   ensures bz != nil ==> fresh(ret) && len(ret) == len(bz) && (forall i int :: 0 <= i && i < len(bz) ==> ret[i] == bz[i])
+
+// store keys are immutable names (ASSUMED for implementations outside this package)
+//@ iface func (k StoreKey) Name() (r string)
+//@   ensures true
+//@ iface func (k StoreKey) String() (r string)
+//@   ensures true
